@@ -880,13 +880,12 @@ fn main() {
             if i >= work.len() + cleaner_work.len() || Instant::now() > deadline {
                 break;
             }
-            // the cleaner leg is interleaved with the kill points so that a time cap cuts both evenly
-            let r = if i < cleaner_work.len() {
-                let (s, k, shape, kill) = &cleaner_work[i];
-                cleaner_point(s, Some(*k), *kill, Some(shape)).map(|(r, _)| r)
-            } else {
-                let (s, k, shape) = &work[i - cleaner_work.len()];
+            let r = if i < work.len() {
+                let (s, k, shape) = &work[i];
                 run_point(s, Some(*k), Some(shape), &prop).map(|(r, _)| r)
+            } else {
+                let (s, k, shape, kill) = &cleaner_work[i - work.len()];
+                cleaner_point(s, Some(*k), *kill, Some(shape)).map(|(r, _)| r)
             };
             collected.lock().unwrap().push(r);
         }));
